@@ -119,7 +119,7 @@ CLAIMED['C05'] = {
             'passes (success edge) every leaf checker of its level and the lower cumulative validator before Ok; the '
             'guarantee-dependent link checkers are passed on the true edge of their predicates; no validator drops or '
             'swallows a checker result; each diagnostic report reaches the leaves its validator reaches; each Level 1-2 leaf (transitively) reads the data its invariant is about. '
-            'Cell::is_valid refuses every vertex count other than D + 1 by an (in)equality test. '
+            'Cell::is_valid refuses every vertex count other than D + 1 by an (in)equality test; the geometric-orientation leaf refuses a zero orientation per cell. '
             'Decides "cumulative = conjunction of levels" and "nothing is skipped or swallowed"; not that each '
             'leaf detects its fault class.',
     'note': 'Trusted: rustc MIR; the Level 1-3 leaf tables in engine/rules/tables.py; a checker returning a verdict '
